@@ -175,9 +175,14 @@ func apply(init *mp4.InitSegment, o *op) (oc byte) {
 		init.AddEmptyTrack(o.ts, o.mt, o.lang)
 		return 'o'
 	case 'V':
-		err = init.Moov.Traks[o.k].SetAVCDescriptor(o.name, o.sps, o.pps, o.incl)
+		// the lists are handed over as private copies with guard bytes and scribbled after the call (hygiene.go, classes 1 and 2)
+		err = callWithOwnedLists("SetAVCDescriptor", [][][]byte{o.sps, o.pps}, func(l [][][]byte) error {
+			return init.Moov.Traks[o.k].SetAVCDescriptor(o.name, l[0], l[1], o.incl)
+		})
 	case 'H':
-		err = init.Moov.Traks[o.k].SetHEVCDescriptor(o.name, o.vps, o.sps, o.pps, o.sei, o.incl)
+		err = callWithOwnedLists("SetHEVCDescriptor", [][][]byte{o.vps, o.sps, o.pps, o.sei}, func(l [][][]byte) error {
+			return init.Moov.Traks[o.k].SetHEVCDescriptor(o.name, l[0], l[1], l[2], l[3], o.incl)
+		})
 	case 'C':
 		err = init.Moov.Traks[o.k].SetAACDescriptor(o.objType, o.freq)
 	case '3':
